@@ -227,8 +227,18 @@ fn walk_report(v: &Value, cx: &mut Ctx) {
                 }
             }
             if let Some(msg) = o.get("error_message").and_then(|m| m.as_str()) {
-                for (p, l, c) in position_mentions(msg) {
+                for (k, (p, l, c)) in position_mentions(msg).into_iter().enumerate() {
                     if p.is_empty() {
+                        // a literal has no path and no position; the root of the document has the empty path too: when the
+                        // document is a scalar, the first value a message names is the one the query selected, the root
+                        if k == 0 && is_scalar(cx.doc) && msg.contains(&format!("Value={}]", cx.doc.json())) {
+                            cx.checked += 1;
+                            if let Some((_, wl, wc)) = cx.pos.iter().find(|(pp, _, _)| pp.is_empty()) {
+                                if (*wl, *wc) != (l, c) {
+                                    cx.problems.push(("position".into(), format!("the root scalar starts at line {} column {} (0-based) but [L:{},C:{}] is reported", wl, wc, l, c)));
+                                }
+                            }
+                        }
                         continue;
                     }
                     if let Some(dv) = resolve(cx.doc, &p) {
@@ -283,6 +293,10 @@ pub fn programs(thorough: bool) -> Vec<(String, Option<Query>)> {
         let c = Clause::Block { some: false, q: q.clone(), not_empty: false, lets: vec![], body: vec![vec![un(vec![key("zz")], UnOp::Exists, false)]] };
         out.push((print_file(&file1(rule("r", vec![vec![c]]))), None));
     }
+    // the document root itself
+    for c in [bin(vec![Part::This], BinOp::Eq, false, i(1)), un(vec![Part::This], UnOp::IsList, false), un(vec![Part::This], UnOp::IsStruct, false), bin(vec![Part::This, Part::All], BinOp::Eq, false, i(1)), bin(vec![Part::This], BinOp::In, false, l(vec![i(5), s("zz")]))] {
+        out.push((print_file(&file1(rule("r", vec![vec![c]]))), None));
+    }
     // composite programs (from / to / positions only)
     let g = crate::p2::Gen::standard(true);
     let b = crate::p2::bfs(&g, 3, 60_000);
@@ -305,6 +319,10 @@ pub fn run(tier: &str) -> i32 {
     docs.push(m(vec![("a", m(vec![("", m(vec![("a", i(2)), ("b", s("x"))])), ("a", m(vec![("a", i(1)), ("b", s("y"))]))])), ("b", i(1))]));
     docs.push(m(vec![("a", m(vec![("a/b", l(vec![i(3), i(1)])), ("0", l(vec![i(2)])), ("a b", l(vec![])), ("a.b", i(1))])), ("b", i(3))]));
     docs.push(m(vec![("a", l(vec![m(vec![("", i(2)), ("a", i(1))]), m(vec![("", l(vec![i(1), i(2)]))])])), ("", i(1)), ("b", i(2))]));
+    // documents whose root is a scalar or a list (the position of the root value itself)
+    docs.push(i(7));
+    docs.push(s("word"));
+    docs.push(l(vec![i(7), s("x"), m(vec![("a", i(2))])]));
     let written: Vec<Vec<(String, Positions)>> = docs.iter().map(|d| lays.iter().map(|l| write(d, l)).collect()).collect();
     let n = progs.len() * docs.len();
     let lay_step = if thorough { 1 } else { 3 };
